@@ -7,9 +7,16 @@
    functions called back by natives through Vm::run_function included: the menu natives call1/try1/call0 and the
    stdlib natives __min/__max/__sort).
    `run_flat` is `Vm::run` with run_function cut off; VmCheck.v reports code 5 if it ever disagrees with `run`
-   on a generated run in which no native re-entered. *)
+   on a generated run in which no native re-entered.
+   The second half of the property ("the result is the same for every sufficient budget") is proved twice: for runs
+   without re-entry under the hypothesis "no Timeout outcome" (C03_budget_monotone, C03_sufficient_budgets_agree),
+   and for `run` itself, with re-entry at any depth through every native of the menu, under the hypothesis that the
+   run ends with at least one unit of budget left (C03_budget_monotone_reentry,
+   C03_sufficient_budgets_agree_reentry). The second hypothesis is the right one with re-entry: a native may
+   swallow the Timeout of a nested run (try1), so "the outcome is not Timeout" does not mean that the budget
+   sufficed; but a Timeout at any level leaves the shared counter at 0 and the counter never grows. *)
 From Coq Require Import NArith List Lia.
-From Cao Require Import Vm VmWitness VmProofs.
+From Cao Require Import Vm VmWitness VmProofs VmShift VmBudgetProofs.
 
 (* for all programs P (looping, recursing, calling sort/min/max with looping callbacks), all start states and all
    budgets N: instructions_executed(run(P,N)) <= N *)
@@ -71,3 +78,23 @@ Theorem C03_dispatch_fuel_irrelevant : forall F bld P max_instr d fuel ip s,
   = run_loop F bld P (run_at F bld P false max_instr d) ip s.
 Proof. exact dispatch_fuel_irrelevant. Qed.
 Print Assumptions C03_dispatch_fuel_irrelevant.
+
+(* with re-entry: a run that ends with budget left is unaffected by a larger budget: same outcome (payload and
+   trace), same final state except that the remaining budget is larger by the difference *)
+Theorem C03_budget_monotone_reentry : forall F bld P N1 N2 s o s1,
+  length (st_calls s) < call_stack_size ->
+  N1 <= N2 -> run F bld N1 P s = (o, s1) -> (1 <= st_rem s1)%N ->
+  run F bld N2 P s = (o, set_rem s1 (st_rem s1 + N.of_nat (N2 - N1))).
+Proof. exact budget_monotone_reentry. Qed.
+Print Assumptions C03_budget_monotone_reentry.
+
+(* with re-entry: run(P,N) = run(P,N') whenever both end with budget left: same outcome, same final state up to the
+   remaining budget, same number of dispatched instructions (N - remaining = N' - remaining') *)
+Theorem C03_sufficient_budgets_agree_reentry : forall F bld P N1 N2 s o1 s1 o2 s2,
+  length (st_calls s) < call_stack_size ->
+  run F bld N1 P s = (o1, s1) -> run F bld N2 P s = (o2, s2) ->
+  (1 <= st_rem s1)%N -> (1 <= st_rem s2)%N ->
+  o1 = o2 /\ set_rem s1 0 = set_rem s2 0 /\ st_count s1 = st_count s2 /\
+  (st_rem s1 + N.of_nat N2 = st_rem s2 + N.of_nat N1)%N.
+Proof. exact sufficient_budgets_agree_reentry. Qed.
+Print Assumptions C03_sufficient_budgets_agree_reentry.
